@@ -18,6 +18,11 @@ ops:  `file <len> <seed> <pat> <period> <badLo> <badHi>`   (first line: the file
                       (a maximal run of consecutive `t` lines is one concurrent section; the model executes
                       it in listing order — by `C13_history_independent` every interleaving gives the same
                       outcomes)
+      `srcmode <k>`   from now on the byte source is unfaithful (excluded point of `Faithful`): a request that ends
+                      exactly at EOF is answered with success but `k` bytes too few (`k > 0`, at most the request)
+                      or `-k` zero bytes too many (`k < 0`); `srcmode 0` restores the faithful source. The cache
+                      panics (`assert!`, cache.rs:67) when it plans such a buffer; `read_bytes_into` hands the
+                      wrong-sized answer through. Output line: `srcmode`.
       `sync`          after a concurrent section: the harness reports whether two of the section's threads
                       were ever inside the byte source of this cache at the same time (`into` calls excepted,
                       they bypass the cache). The code holds the buffer-manager mutex from planning a read to
@@ -123,21 +128,39 @@ def parseXOpWords : List String → Option XOp
     | _ => none
   | ws => (parseOpWords ws).map .base
 
-/-- an op line, with or without the `t <k>` prefix (the flag says whether it had one); `some none` = a
-`sync` line -/
-def parseOp (l : String) : Option (Option (Bool × XOp)) :=
-  match words l with
-  | ["sync"] => some none
-  | "t" :: _ :: rest => (parseXOpWords rest).map fun op => some (true, op)
-  | ws => (parseXOpWords ws).map fun op => some (false, op)
+/-- an op line -/
+inductive Line
+  | sync
+  | srcmode (k : Int)
+  /-- a call, with (`true`) or without the `t <k>` prefix -/
+  | call (inThread : Bool) (op : XOp)
 
-def parse (ls : List String) : Option (Gen × List (Option (Bool × XOp))) :=
+def parseInt (s : String) : Option Int :=
+  if s.startsWith "-" then (s.drop 1).toNat?.map fun n => - (Int.ofNat n) else s.toNat?.map Int.ofNat
+
+def parseOp (l : String) : Option Line :=
+  match words l with
+  | ["sync"] => some .sync
+  | ["srcmode", k] => (parseInt k).map .srcmode
+  | "t" :: _ :: rest => (parseXOpWords rest).map (.call true)
+  | ws => (parseXOpWords ws).map (.call false)
+
+def parse (ls : List String) : Option (Gen × List Line) :=
   match ls with
   | l :: rest => do
     let g ← parseGen l
     let ops ← rest.mapM parseOp
     pure (g, ops)
   | [] => none
+
+/-- the harness's source in mode `k` (see `srcmode`) -/
+def srcMode (g : Gen) (k : Int) (o n : Nat) : Option (List UInt8) :=
+  match src g o n with
+  | none => none
+  | some bs =>
+    if k = 0 ∨ o + n ≠ g.len ∨ n = 0 then some bs
+    else if 0 < k then some (bs.take (n - min k.toNat n))
+    else some (bs ++ List.replicate (-k).toNat 0)
 
 def fnv (bs : List UInt8) : UInt64 :=
   bs.foldl (fun h b => (h ^^^ b.toUInt64) * 0x100000001b3) 0xcbf29ce484222325
@@ -179,17 +202,17 @@ def model (ls : List String) : List String :=
   match parse ls with
   | none => ["bad-op"]
   | some (g, ops) =>
-    let c : Cfg := ⟨realChunk, src g⟩
-    let rec go (st : St) (ops : List (Option (Bool × XOp))) (acc : List String) : List String :=
+    let rec go (k : Int) (st : St) (ops : List Line) (acc : List String) : List String :=
       match ops with
       | [] => acc.reverse
-      | none :: rest => go st rest ("sync overlap=0" :: acc)
-      | some (_, op) :: rest =>
-        if xTooLarge g op then go st rest ("skip:too-large" :: acc) else
-        match xstep c st op with
+      | .sync :: rest => go k st rest ("sync overlap=0" :: acc)
+      | .srcmode k' :: rest => go k' st rest ("srcmode" :: acc)
+      | .call _ op :: rest =>
+        if xTooLarge g op then go k st rest ("skip:too-large" :: acc) else
+        match xstep ⟨realChunk, srcMode g k⟩ st op with
         | (_, .panic) => ("panic" :: acc).reverse
-        | (st', out) => go st' rest (showOut out :: acc)
-    go (St.init g.len) ops []
+        | (st', out) => go k st' rest (showOut out :: acc)
+    go 0 (St.init g.len) ops []
 
 /-! ### The judge: C13's statement evaluated on the implementation's own output, from the file alone. -/
 
@@ -337,19 +360,43 @@ def okRangeOf (g : Gen) (op : XOp) (o : String) : Option (Nat × Nat) :=
   | .view (.vread base subs off n) => rd (sumStarts (baseStart base) subs + off) n
   | .view (.vuntil base subs r _) => un (sumStarts (baseStart base) subs + r.lo)
 
+/-- the cache-level request behind a call (for the unfaithful-source clause) -/
+def xUnder (g : Gen) : XOp → Op
+  | .base op => op
+  | .view v => v.under g.len
+
+/-- may this call have to read a buffer that ends at EOF (chunk-rounded hull of the request reaches EOF)? -/
+def hullReachesEof (g : Gen) : Op → Bool
+  | .read o n => decide (0 < n) && decide (o + n ≤ g.len) && decide (g.len ≤ (o + n + realChunk - 1) / realChunk * realChunk)
+  | .until_ r _ =>
+    let m := min (r.hi - r.lo) 4096
+    decide (0 < m) && decide (r.hi ≤ g.len) && decide (g.len ≤ (r.lo + m + realChunk - 1) / realChunk * realChunk)
+  | .into o n => decide (0 < n) && decide (o + n = g.len)
+
+def isInto : Op → Bool
+  | .into _ _ => true
+  | _ => false
+
 def judge (ops impl : List String) : Bool × String :=
   match parse ops with
   | none => (false, "bad-op")
   | some (g, opl) =>
     if impl.length ≠ opl.length ∧ impl.getLast? ≠ some "panic" then (false, "wrong number of output lines") else
     -- every outcome against the file; and equal requests must have equal outcomes (history independence)
-    let rec go (opl : List (Option (Bool × XOp))) (outs : List String) (seen : List (XOp × String))
+    let rec go (k : Int) (opl : List Line) (outs : List String) (seen : List (XOp × String))
         (okR : List (Nat × Nat)) : Bool × String :=
       match opl, outs with
       | [], [] => (true, "ok")
       -- a `sync` line reports on the schedule, not on the bytes: nothing of the statement to judge
-      | none :: os, o :: rest => if o.startsWith "sync" then go os rest seen okR else (false, s!"unparsable output {o}")
-      | some (inThread, op) :: os, o :: rest =>
+      | .sync :: os, o :: rest => if o.startsWith "sync" then go k os rest seen okR else (false, s!"unparsable output {o}")
+      | .srcmode k' :: os, o :: rest => if o = "srcmode" then go k' os rest seen okR else (false, s!"unparsable output {o}")
+      | .call inThread op :: os, o :: rest =>
+        -- the statement's hypothesis (the source delivers what it claims) is violated by the harness on
+        -- purpose: a call that may have to fetch the buffer ending at EOF may panic (FileByteSource contract),
+        -- `read_bytes_into` hands the wrong-sized answer through; everything else is judged as usual
+        if k ≠ 0 ∧ hullReachesEof g (xUnder g op) ∧ (o = "panic" ∨ isInto (xUnder g op)) then
+          (if o = "panic" then (true, "ok") else go k os rest seen okR)   -- a panic ends the case
+        else
         match judgeX g (if inThread then [] else okR) op o with
         | .bad why => (false, why)
         | .good =>
@@ -357,13 +404,13 @@ def judge (ops impl : List String) : Bool × String :=
           -- a failure of the byte source carries no information about the cache (a delimited read may
           -- legitimately succeed from the string cache where a fresh cache would have to read a buffer the
           -- source refuses): only outcomes not blamed on the source are compared
-          if o = "err:source" ∨ (o = "err:readref" ∧ g.badLo < g.badHi) then go os rest seen okR else
+          if o = "err:source" ∨ (o = "err:readref" ∧ g.badLo < g.badHi) then go k os rest seen okR else
           match seen.find? (fun e => e.1 == op) with
           | some (_, o') =>
-            if o' = o then go os rest seen okR
+            if o' = o then go k os rest seen okR
             else (false, s!"history-dependent: the same request gave {o'} earlier and {o} now")
-          | none => go os rest ((op, o) :: seen) okR
+          | none => go k os rest ((op, o) :: seen) okR
       | _, _ => (false, "length mismatch")
-    go opl impl [] []
+    go 0 opl impl [] []
 
 end C13
